@@ -60,7 +60,7 @@ TraceAdvance == IsEvent("Advance") /\ Advance(Post) /\ now' = Line.now
 
 \* The run on the real scheduler is sampled once per epoch, between samples the services run by
 \* themselves: the sampled state must satisfy the invariants.  The marks and attestation jobs looked
-\* at are those of slots that ended at least four slots ago (no job of theirs waits or runs).
+\* at are those of slots that ended at least five slots ago (no job of theirs waits or runs).
 TraceSample ==
     /\ IsEvent("Sample")
     /\ now' = Line.now
